@@ -1,15 +1,24 @@
 #!/usr/bin/env python3
-"""tools/seedmatrix.py [ID ...] : run every kept seeded change (seeded/<ID>-<n>/patch.diff) against its check
-in a scratch worktree of /repo HEAD and write seeded/MATRIX.md + update each meta.json (detected_by_check)."""
+"""tools/seedmatrix.py [-j N] [--missed] [ID | ID-n ...] : run kept seeded changes (seeded/<ID>-<n>/patch.diff) against
+their check in scratch worktrees of /repo HEAD, update each meta.json (detected_by_check) and regenerate
+seeded/MATRIX.md from all meta.json files."""
 import glob, json, os, subprocess, sys, time
+from concurrent.futures import ThreadPoolExecutor
 V = "/verif"
-want = set(sys.argv[1:])
-rows = []
-for d in sorted(glob.glob(V + "/seeded/*/")):
+args = sys.argv[1:]
+jobs = 1
+only_missed = False
+if "-j" in args:
+  i = args.index("-j"); jobs = int(args[i + 1]); del args[i:i + 2]
+if "--missed" in args:
+  args.remove("--missed"); only_missed = True
+want = set(args)
+head = subprocess.run(["git", "-C", "/repo", "rev-parse", "--short", "HEAD"], stdout=subprocess.PIPE, text=True).stdout.strip()
+
+
+def one(d):
   name = os.path.basename(d.rstrip("/"))
   pid = name.split("-")[0]
-  if want and pid not in want:
-    continue
   meta = json.load(open(d + "meta.json"))
   t0 = time.time()
   r = subprocess.run([V + "/tools/trydiff.py", pid, d + "patch.diff"], stdout=subprocess.PIPE, stderr=subprocess.STDOUT, text=True)
@@ -18,14 +27,32 @@ for d in sorted(glob.glob(V + "/seeded/*/")):
   det = r.returncode == 1
   meta["detected_by_check"] = det
   meta["check_output"] = sig
-  meta["checked_at_repo_head"] = subprocess.run(["git", "-C", "/repo", "rev-parse", "--short", "HEAD"], stdout=subprocess.PIPE, text=True).stdout.strip()
+  meta["check_result"] = "detected" if det else ("NOT APPLICABLE (patch no longer applies)" if "does not apply" in r.stdout else "MISSED (exit %d)" % r.returncode)
+  meta["check_seconds"] = round(time.time() - t0)
+  meta["checked_at_repo_head"] = head
   json.dump(meta, open(d + "meta.json", "w"), indent=1)
-  rows.append((name, pid, "detected" if det else ("NOT APPLICABLE (patch no longer applies)" if "does not apply" in r.stdout else "MISSED (exit %d)" % r.returncode),
-               meta.get("summary", "")[:110].replace("|", "/"), sig[0][:120] if sig else "", round(time.time() - t0)))
-  print(rows[-1], flush=True)
-with open(V + "/seeded/MATRIX.md", "a" if want else "w") as f:
-  if not want:
-    f.write("# Seeded changes vs checks\n\nEach row: an independently produced change that breaks the property and passes the repository's tests, "
-            "re-run against `./check <ID> --tier quick` in a scratch worktree of /repo HEAD.\n\n| seed | property | result | what the change does | first reported signature | s |\n|---|---|---|---|---|---|\n")
-  for r in rows:
-    f.write("| %s | %s | %s | %s | `%s` | %s |\n" % r)
+  print(name, meta["check_result"], sig[0][:140] if sig else "", meta["check_seconds"], flush=True)
+
+
+todo = []
+for d in sorted(glob.glob(V + "/seeded/*/")):
+  name = os.path.basename(d.rstrip("/"))
+  pid = name.split("-")[0]
+  if want and pid not in want and name not in want:
+    continue
+  if only_missed and json.load(open(d + "meta.json")).get("detected_by_check"):
+    continue
+  todo.append(d)
+with ThreadPoolExecutor(jobs) as ex:
+  list(ex.map(one, todo))
+
+with open(V + "/seeded/MATRIX.md", "w") as f:
+  f.write("# Seeded changes vs checks\n\nEach row: an independently produced change that breaks the property and passes the repository's tests, "
+          "re-run against `./check <ID> --tier quick` in a scratch worktree of /repo HEAD.\n\n| seed | property | result | at | what the change does | first reported signature | s |\n|---|---|---|---|---|---|---|\n")
+  for d in sorted(glob.glob(V + "/seeded/*/")):
+    name = os.path.basename(d.rstrip("/"))
+    m = json.load(open(d + "meta.json"))
+    sig = m.get("check_output") or []
+    res = m.get("check_result") or ("detected" if m.get("detected_by_check") else "MISSED")
+    f.write("| %s | %s | %s | %s | %s | `%s` | %s |\n" % (name, name.split("-")[0], res, m.get("checked_at_repo_head", m.get("repo_head_when_confirmed", "")),
+                                                       str(m.get("summary", ""))[:110].replace("|", "/"), sig[0][:120] if sig else "", m.get("check_seconds", "")))
